@@ -9,7 +9,7 @@ REPLAY = os.path.join(VERIF, 'replay')
 HAVE = {'C01', 'C02', 'C16', 'C17', 'C18', 'C03', 'C04', 'C05', 'C06', 'C07', 'C08', 'C09', 'C10', 'C11', 'C12', 'C13', 'C14', 'C15', 'C19', 'C20'}
 RIDS = {'C08': ['C08', 'C08Q'], 'C07': ['C07']}     # replay-crate dispatch ids per property (default: the property id)
 # dispatch ids of the always-run bounded stand-in where it is a module of its own (the witness search keeps the property id)
-BRIDS = {'C15': ['C15E'], 'C02': ['C02E'], 'C04': ['C04', 'C04B']}
+BRIDS = {'C15': ['C15E'], 'C02': ['C02E'], 'C04': ['C04', 'C04B'], 'C01': ['C01E']}
 _cache = {}
 
 
@@ -81,6 +81,13 @@ def search(pid, seed, tier='quick'):
 
 
 BOUNDED = {
+    'C01': dict(what='the REAL EngineState (every second random history through Engine::process) over the engine layout: request-sent marks (record_in_flight_open / _cancel), '
+                     'streamed order snapshots in every state (incl. an Open report with nothing left, report quantity different from the requested one), cancel responses ok / err, '
+                     'and FULL account snapshots listing any mix of active and inactive reports for several instruments (an instrument or an order listed twice, unknown ids), '
+                     'timestamps from a small domain (ties and stale reports frequent), the same client order id on two instruments / exchanges: every sequence with repetition '
+                     'up to a depth bound over five alphabets plus seeded random histories; after every event every instrument table equals the lifecycle model, held exchange '
+                     'times never move back, orders not named are untouched, a full snapshot is its items applied one by one',
+                bound={'quick': '~1.3M events', 'thorough': '~15.6M events'}),
     'C02': dict(what='END TO END on the real code: unindexed trade account events (the venue-side instrument / asset names) -> AccountEventIndexer over the real '
                      'generate_execution_instrument_map -> EngineState::update_from_account, on two layouts (8 instruments on 3 exchanges, the same exchange symbol on up to '
                      'three exchanges, shared asset names, index != position): every fill sequence up to a depth bound over small alphabets on instrument pairs / triples, the '
@@ -122,7 +129,9 @@ BOUNDED = {
                      'timing-independent EveryK strategy, mock execution, in-memory and paced market data: every dataset event once and in order before shutdown, summaries '
                      'computed from the own engine, concurrent (N = 2..8) equals alone (orders always; fills / positions / balances / PnL exactly with the paced feed, as a '
                      'sub-multiset with the in-memory feed); a market stream that PANICS at record k: a backtest that returns a summary has consumed the whole dataset; recorded '
-                     'datasets with recoverable error records / reconnect notices at every position through the real with_error_handler: every OK event still fed, in order',
+                     'datasets with recoverable error records / reconnect notices at every position through the real with_error_handler: every OK event still fed, in order; backtests / '
+                     'batches over four DIFFERENT instrument universes on the same mocked exchange id, one after the other in every order and side by side: what ran earlier in the '
+                     'process does not change a backtest\'s orders, fills, positions, balances or PnL',
                 bound={'quick': 'dataset sizes 0,1,2,7,30,64; ~200 batches, 3 concurrent repetitions', 'thorough': 'plus sizes 3,12,150; ~4000 batches, 6 repetitions'}),
     'C06': dict(what='the REAL Binance spot and futures L2 transformers behind the REAL with_termination_on_error + with_reconnection_events: two instruments on one '
                      'connection followed by a clean second connection; deliveries perturbed by drop / duplicate / swap / replay of an old prefix / late or early start / '
